@@ -91,7 +91,12 @@ func setNodeKey(ctx context.Context, key string) context.Context {
 	if !existed || len(path.path) == 0 {
 		return context.WithValue(ctx, nodePathKey{}, NewNodePath(key))
 	}
-	return context.WithValue(ctx, nodePathKey{}, NewNodePath(append(path.path, key)...))
+	// The parent's path must not be extended in place: sibling tasks derive their paths from the same
+	// parent slice, and an append into its spare capacity would let the last sibling's key overwrite
+	// the others' (the state modifier of a resumed nested graph was called with its sibling's path).
+	nPath := make([]string, 0, len(path.path)+1)
+	nPath = append(append(nPath, path.path...), key)
+	return context.WithValue(ctx, nodePathKey{}, NewNodePath(nPath...))
 }
 
 func getStateModifier(ctx context.Context) StateModifier {
